@@ -15,6 +15,7 @@
 from __future__ import annotations
 
 import concurrent.futures
+import json
 import multiprocessing
 import os
 import random
@@ -460,6 +461,55 @@ def execute(ctx, rep, items, report=True):
     return validate(ctx, rep, pairs, report=report)
 
 
+ATTMON_QUICK = ["tests/gatt_test.py", "tests/gatt_service_test.py", "tests/heart_rate_service_test.py", "tests/device_test.py", "tests/self_test.py",
+                "tests/vcp_test.py", "tests/vocs_test.py", "tests/aics_test.py", "tests/bap_test.py", "tests/csip_test.py", "tests/gmap_test.py", "tests/hap_test.py",
+                "tests/bass_test.py", "tests/cap_test.py", "tests/mcp_test.py", "tests/battery_service_test.py", "tests/asha_test.py"]
+
+
+def repo_tests_monitor(ctx, rep):
+    """The repository's own tests under lib/attmon.py: every ATT PDU on the unenhanced bearer of every (Device,
+    connection) they create, judged by ServerTrace.tla from the point of view of that device's server role."""
+    import subprocess
+    import sys
+
+    repo = os.environ.get("VERIF_REPO", "/repo")
+    out = os.path.join(ctx.out, f"attmon-{ctx.tier}.json")
+    if os.path.exists(out):
+        os.remove(out)
+    tests = [t for t in ATTMON_QUICK if os.path.exists(os.path.join(repo, t))] if ctx.quick else ["tests"]
+    env = dict(os.environ, ATTMON_OUT=out, PYTHONPATH=f"{repo}:{tlc.VERIF}", PYTHONDONTWRITEBYTECODE="1")
+    r = subprocess.run([sys.executable, "-B", "-m", "pytest", "-p", "lib.attmon", "-p", "no:cacheprovider", "-q", "--timeout=900", "--no-header"] + tests,
+                       cwd=repo, env=env, capture_output=True, text=True, timeout=1800)
+    if not os.path.exists(out):
+        raise tlc.TlcError(f"repository tests under the ATT monitor produced no trace file:\n{(r.stdout + r.stderr)[-2000:]}")
+    with open(out) as f:
+        recs = json.load(f)
+    os.remove(out)
+    traces = [x["events"] for x in recs]
+    rep.extra["repo_tests_att_monitor"] = {"traces": len(traces), "events": sum(len(t) for t in traces), "pytest": (r.stdout or "").strip().splitlines()[-1:]}
+    if not traces:
+        raise tlc.TlcError("the ATT monitor recorded nothing from the repository's tests")
+    spec, cfg = ctx.spec("Att", "ServerTrace.tla"), ctx.spec("Att", "ServerTrace.cfg")
+    B = 2000
+    for i in range(0, len(traces), B):
+        res = tlc.trace_batch(spec, cfg, traces[i:i + B], tag="c10mon")
+        rep.extra["trace_states"] = rep.extra.get("trace_states", 0) + res["states"]
+        for tid, v in res["verdicts"].items():
+            rec = recs[i + tid - 1]
+            rep.traces += 1
+            rep.case(("attmon", rec["test"], rec["handle"], len(rec["events"])), nontrivial=len(rec["events"]) > 2)
+            if v[0] == "ACCEPT":
+                continue
+            info = v[3] if len(v) > 3 and isinstance(v[3], dict) else {}
+            clauses = sorted(c for c in info.get("clauses", []) if c not in ("guard", "second-indication"))
+            if not clauses:
+                continue  # not enabled (a test's own client broke the sequencing assumption) / not judged here
+            line, event = v[1], v[2]
+            rep.violation(f"attmon:{'+'.join(clauses)}",
+                          f"repository test {rec['test']} (connection 0x{rec['handle']:04X}): ATT trace rejected at event {line} {event}: {clauses}; monitor state {info}",
+                          {"part": "attmon", "test": rec["test"], "line": line, "event": event, "events": rec["events"][:line + 2]})
+
+
 def run(ctx, rep):
     rep.rule = ("one trace per (bearer kind, MTU, opcode 0..255, parameter shape) stimulus = [open, req, srv*, mtu?, quiesce] recorded by a raw ATT puppet "
                 "against the real gatt_server.Server, plus seeded notification/indication/MTU-exchange scenarios; every trace validated by ServerTrace.tla; "
@@ -473,6 +523,7 @@ def run(ctx, rep):
     results = execute(ctx, rep, plan(ctx))
     rejected = sum(1 for _t, _m, v in results if v[0] != "ACCEPT")
     rep.extra["traces_rejected"] = rejected
+    repo_tests_monitor(ctx, rep)
     rep.exhaustive = False
 
 
